@@ -137,8 +137,26 @@ class ProviderDispatcher(BaseProvider):
                         prop_name, prop_inst.is_array, prop_cls.is_array,
                         instance.classname, namespace))
 
-        if isinstance(prop_inst.value, CIMInstance):
-            emb_classname_inst = prop_inst.value.classname
+        # Embedded objects are validated item by item for array properties
+        if isinstance(prop_inst.value, list):
+            values = prop_inst.value
+        else:
+            values = [prop_inst.value]
+
+        for value in values:
+            self._validate_embedded_value(
+                prop_name, value, prop_cls, instance, namespace, class_store)
+
+    def _validate_embedded_value(
+            self, prop_name, value, prop_cls, instance, namespace,
+            class_store):
+        """
+        Validate a single property value (or array item) that may be an
+        embedded object against the property declaration in the class.
+        """
+
+        if isinstance(value, CIMInstance):
+            emb_classname_inst = value.classname
             if 'EmbeddedInstance' in prop_cls.qualifiers:
                 ei_qual = prop_cls.qualifiers['EmbeddedInstance']
                 emb_classname_cls = ei_qual.value
@@ -165,8 +183,8 @@ class ProviderDispatcher(BaseProvider):
                             prop_name, emb_classname_inst,
                             instance.classname, namespace))
 
-        if isinstance(prop_inst.value, CIMClass):
-            emb_classname_inst = prop_inst.value.classname
+        if isinstance(value, CIMClass):
+            emb_classname_inst = value.classname
             if 'EmbeddedObject' not in prop_cls.qualifiers:
                 raise CIMError(
                     CIM_ERR_INVALID_PARAMETER,
